@@ -158,13 +158,35 @@ def main():
               "pre_unsat": 0, "error": 0}
     cex_records = []
 
-    def handle_cex(fn, call, msg, origin):
+    transient = []
+
+    def handle_cex(fn, call, msg, origin, traced=None):
         ra = replay_a(mod, fn, call) if call else {"reproduced": None, "error": "unparsable call"}
         rec = {"fn": fn, "call": call, "message": msg, "origin": origin, "stage_a": ra}
         if not ra.get("reproduced"):
-            harness_errors.append(f"{fn}: counterexample does not reproduce without CrossHair: {msg} / {ra}")
-            cex_records.append(rec)
-            return
+            # traced-only failure: re-run the condition once; only a *repeatable* non-reproducing
+            # counterexample is a harness error, a one-off is recorded as transient
+            again = None
+            if origin == "crosshair":
+                c = next((c for c in conds if c["name"] == fn), None)
+                if c is not None:
+                    again = run_condition(mod, c)
+            rec["traced_detail"] = traced
+            rec["rerun_verdict"] = None if again is None else again.get("verdict")
+            if again is not None and again.get("verdict") == "counterexample":
+                ra2 = replay_a(mod, fn, again.get("call")) if again.get("call") else {"reproduced": None}
+                if ra2.get("reproduced"):
+                    rec.update(call=again.get("call"), message=again.get("cex_message"), stage_a=ra2)
+                    ra = ra2
+                    call, msg = again.get("call"), again.get("cex_message")
+                else:
+                    harness_errors.append(f"{fn}: counterexample does not reproduce without CrossHair (twice): {msg} / traced: {traced} / {ra}")
+                    cex_records.append(rec)
+                    return
+            else:
+                transient.append({"fn": fn, "call": call, "traced_detail": traced, "rerun": rec["rerun_verdict"]})
+                cex_records.append(rec)
+                return
         if hasattr(prop, "stage_b"):
             rb = prop.stage_b(fn, call)
             rec["stage_b"] = rb
@@ -201,7 +223,7 @@ def main():
             counts["pre_unsat"] += 1
         elif v == "counterexample":
             counts["counterexample"] += 1
-            handle_cex(r["name"], r.get("call"), msg, "crosshair")
+            handle_cex(r["name"], r.get("call"), msg, "crosshair", r.get("traced_detail"))
         elif v == "killed":
             counts["not_confirmed"] += 1
         else:
@@ -256,6 +278,7 @@ def main():
             "counterexamples": [{k: rec.get(k) for k in ("fn", "call", "message", "replay")} | {"stage_a": rec["stage_a"].get("reproduced"), "stage_b": (rec.get("stage_b") or {}).get("reproduced")} for rec in cex_records],
             "known_findings": witness_res,
             "harness_errors": harness_errors,
+            "transient_unreproduced": transient,
             "repo": repo_state(),
         },
         "assumptions": meta.get("assumptions", []) + [f"stub: {s}" for s in meta.get("stubs", [])],
